@@ -69,9 +69,13 @@ def r20_1(ctx: Ctx, rule: str = "R20.1") -> None:
 def r20_2(ctx: Ctx) -> None:
     sites = []
     rd = ctx.prog.func("compressor", "SevenZipDecompressor._read_data")
-    for c in [c for c in q.calls(rd) if attr_tail(c) == "read"]:
-        srcs = q.sources_of(rd, c.args[0], depth=2) if c.args else []
-        ok = bool(c.args) and any(isinstance(s, ast.Call) and dotted(s.func) == "min" and any("block_size" in norm(a) for a in s.args) for s in srcs)
+    rd_reads = [(c, c.args[0] if c.args else None) for c in q.calls(rd) if attr_tail(c) == "read"] + \
+               [(c, c.args[1] if len(c.args) > 1 else None) for c in q.calls(rd) if (dotted(c.func) or "").split(".")[-1] == "read_fully"]  # the package's short-read loop
+    if len(rd_reads) == 1:
+        sites.append(rd_reads[0][0])  # one call that stands for the read and its retries
+    for c, size_arg in rd_reads:
+        srcs = q.sources_of(rd, size_arg, depth=2) if size_arg is not None else []
+        ok = size_arg is not None and any(isinstance(s, ast.Call) and dotted(s.func) == "min" and any("block_size" in norm(a) for a in s.args) for s in srcs)
         ctx.check(ok, "R20.2", rd, c, "packed input is read at most one block at a time", "_read_data reads packed input without a min(..., block_size) bound (e.g. the whole remaining stream)")
         sites.append(c)
     cp = ctx.prog.func("compressor", "SevenZipCompressor.compress")
